@@ -5,5 +5,6 @@ CONSTANT Fits = {"dlite", "taubinSVD"}
 CONSTANT Methods = {"default", "lsq_linear", "lsq", "fix_stress"}
 CONSTANT BModes = {"static", "velocity"}
 CONSTANT PressuresKeyed = FALSE
+CONSTANT ExcludedReset = FALSE
 POSTCONDITION Done
 CHECK_DEADLOCK FALSE
